@@ -25,6 +25,7 @@ var recvs = []string{
 	"(function(){return arguments})(1,2)", `new Error("e")`, "Math", "JSON", "this", `new Date(NaN)`, "Object.prototype", "Array.prototype",
 	"Function.prototype", "String.prototype", "({length: 3, 0: 1, 2: 3})", "Object.freeze([1,2])",
 	"RegExp.prototype", "Date.prototype", "Number.prototype", "Boolean.prototype", "Error.prototype", "(function f(){}).bind(null)",
+	"String.fromCharCode(0xD800)", `new String("\ud83d\ude00".slice(0, 1) + "1")`,
 	"Object.create(Array.prototype)", "Object.create(String.prototype)", "Object.create(RegExp.prototype)", "Object.create(Date.prototype)",
 	"Object.create(Number.prototype)", "Object.create(Function.prototype)", "Object.create(Error.prototype)", "Object.create(Boolean.prototype)",
 }
@@ -34,6 +35,9 @@ var argvs = []string{
 	`""`, `"abc"`, `"0"`, "({})", "[]", "[1,[2]]", "(function(){return 1})", "({valueOf:function(){throw new RangeError('v')}})",
 	"({toString:function(){return {}},valueOf:function(){return {}}})", "/a/", "new Date(1e12)", "-0", "1e21", `"\ud800"`, "9007199254740993",
 	"({length:3})", "({get x(){throw 1}})", `"!!"`, `"%"`, `"\\"`, "Object.create(null)",
+	// strings held as UTF-16 code units (unpaired surrogates): a second internal representation every
+	// conversion has to know
+	"String.fromCharCode(0xDC00)", `("12" + String.fromCharCode(0xD800))`, `"\ud83d\ude00".slice(1)`,
 }
 
 // discover enumerates every function reachable from the global object (own properties, any
@@ -367,6 +371,9 @@ func genC02(c *h.Ctx) {
 	// stateful API sequences
 	for i := 0; i < c.N(4000, 150000); i++ {
 		c.Add("seq "+hex.EncodeToString([]byte(genSeq(r.Fork(), fns, 4+r.Intn(10)))), "sequence")
+	}
+	for i := 0; i < c.N(3000, 100000); i++ {
+		c.Add("seq "+hex.EncodeToString([]byte(genSeqArray(r.Fork(), 3+r.Intn(8)))), "sequence:array-error-paths")
 	}
 	// byte strings as source
 	kinds := []string{"src", "eval", "compile", "gocall", "goobject", "goname"}
